@@ -892,7 +892,13 @@ func (f *Frame) alloc(in *ssa.Alloc) {
 		f.vals[in] = &Val{K: VAddr, T: in.Type(), Addr: &Addr{Kind: AElem, Base: base, Idx: IntLit(0), Key: "M$" + typeKey(inner), T: t, ArrLen: u.Len()}}
 		return
 	}
-	if in.Heap {
+	if in.Heap && f.nonRetainedLocal(in) {
+		// go/ssa marks the cell as escaping only because its address is handed to a function
+		// outside the repository (json.Unmarshal(data, &x)), outside any loop: such a callee
+		// writes the pointee during the call and does not keep the pointer (listed as an
+		// assumption), so the cell stays private to this frame
+		f.E.Assumes["a function outside the repository that is handed the address of a local variable (e.g. encoding/json.Unmarshal) writes it during the call only and does not retain the pointer"] = true
+	} else if in.Heap {
 		// escaping cell: its own object
 		r := f.newRef("cell_" + in.Name())
 		a := &Addr{Kind: AObj, Obj: r, Key: "C$" + typeKey(t), T: t}
@@ -1346,4 +1352,113 @@ func (f *Frame) sliceOp(in *ssa.Slice) {
 	default:
 		f.E.fail("unsupported slice base %s", x)
 	}
+}
+
+// nonRetainedLocal: every use of the cell's address is a load, a store INTO the cell, or an
+// argument (possibly boxed into an interface) of a direct call to a function outside the
+// repository that is not inside a loop.
+func (f *Frame) nonRetainedLocal(in *ssa.Alloc) bool {
+	refs := in.Referrers()
+	if refs == nil {
+		return false
+	}
+	external := func(user ssa.Instruction, arg ssa.Value) bool {
+		c, ok := user.(*ssa.Call)
+		if !ok {
+			return false
+		}
+		callee := c.Call.StaticCallee()
+		if callee == nil || c.Call.IsInvoke() {
+			return false
+		}
+		if isRepoFunc(callee) {
+			// a repository function that only forwards the argument to such a function
+			ok := false
+			for i, a := range c.Call.Args {
+				if a == arg {
+					if !paramOnlyForwarded(callee, i, 2) {
+						return false
+					}
+					ok = true
+				}
+			}
+			if !ok {
+				return false
+			}
+		}
+		for _, l := range f.loopList {
+			if l.blocks[c.Block().Index] {
+				return false
+			}
+		}
+		return true
+	}
+	calls := 0
+	for _, r := range *refs {
+		switch u := r.(type) {
+		case *ssa.Store:
+			if u.Val == ssa.Value(in) {
+				return false
+			}
+		case *ssa.UnOp, *ssa.DebugRef:
+		case *ssa.MakeInterface:
+			mr := u.Referrers()
+			if mr == nil {
+				return false
+			}
+			for _, r2 := range *mr {
+				if _, dbg := r2.(*ssa.DebugRef); dbg {
+					continue
+				}
+				if !external(r2, u) {
+					return false
+				}
+				calls++
+			}
+		case *ssa.Call:
+			if !external(u, in) {
+				return false
+			}
+			calls++
+		default:
+			return false
+		}
+	}
+	return calls > 0
+}
+
+// paramOnlyForwarded: parameter i of the repository function fn is used only as an argument of
+// direct calls to functions outside the repository (or, up to the given depth, of repository
+// functions that do the same).
+func paramOnlyForwarded(fn *ssa.Function, i int, depth int) bool {
+	if i >= len(fn.Params) || len(fn.Blocks) == 0 {
+		return false
+	}
+	refs := fn.Params[i].Referrers()
+	if refs == nil {
+		return true
+	}
+	for _, r := range *refs {
+		switch u := r.(type) {
+		case *ssa.DebugRef:
+		case *ssa.Call:
+			callee := u.Call.StaticCallee()
+			if callee == nil || u.Call.IsInvoke() {
+				return false
+			}
+			if isRepoFunc(callee) {
+				if depth == 0 {
+					return false
+				}
+				for k, a := range u.Call.Args {
+					if a == ssa.Value(fn.Params[i]) && !paramOnlyForwarded(callee, k, depth-1) {
+						return false
+					}
+				}
+			}
+		default:
+			return false
+		}
+	}
+	return true
 }
